@@ -189,6 +189,28 @@ func Lookup(b []byte, tag string) (string, bool) {
 	return "", false
 }
 
+// LookupAll returns the values of every field whose tag is exactly tag.
+func LookupAll(b []byte, tag string) []string {
+	var out []string
+	start := 0
+	for i := 0; i <= len(b); i++ {
+		if i < len(b) && b[i] != SOH {
+			continue
+		}
+		tok := b[start:i]
+		start = i + 1
+		for j := 0; j < len(tok); j++ {
+			if tok[j] == '=' {
+				if string(tok[:j]) == tag {
+					out = append(out, string(tok[j+1:]))
+				}
+				break
+			}
+		}
+	}
+	return out
+}
+
 // Assemble builds a framed message from BeginString value, MsgType value and
 // the remaining fields (already in wire order), computing BodyLength and
 // CheckSum from the definition. fields may contain tokens without '='.
